@@ -32,7 +32,7 @@ THEOREMS = [P + n for n in [
     "coerce_idem", "coerce_comm", "coerce_assoc", "coerce_cross_chain_first_wins_witness",
     "leaf_table_agrees", "un_table_agrees", "bin_table_agrees", "tern_table_agrees", "tables_ok",
     "rel_sound", "class_agrees", "final_class_agrees", "int_never_narrower",
-    "nullif_witness", "date_minus_date_witness", "date_plus_interval_witness", "cross_chain_witness",
+    "nullif_witness", "nullif_first_arg_agrees", "date_minus_date_witness", "date_plus_interval_witness", "cross_chain_witness",
 ]]
 
 # ------------------------------------------------------------------------------------------ the modelled universe
@@ -69,7 +69,7 @@ AGG = {"count", "sum", "min", "max", "avg"}
 UN_SQL = {
     "neg": "-{a}", "not": "NOT {a}", "isNull": "{a} IS NULL", "length": "LENGTH({A})", "upper": "UPPER({A})",
     "lower": "LOWER({A})", "abs": "ABS({A})", "year": "YEAR({A})", "month": "MONTH({A})", "day": "DAY({A})",
-    "extractYear": "EXTRACT(YEAR FROM {A})", "count": "COUNT({A})", "sum": "SUM({A})", "min": "MIN({A})", "max": "MAX({A})",
+    "extractYear": "EXTRACT(YEAR FROM {a})", "count": "COUNT({A})", "sum": "SUM({A})", "min": "MIN({A})", "max": "MAX({A})",
     "avg": "AVG({A})", "sumOver": "SUM({A}) OVER ()", "maxOver": "MAX({A}) OVER ()", "countOver": "COUNT({A}) OVER ()",
     "avgOver": "AVG({A}) OVER ()",
 }
@@ -877,10 +877,32 @@ def has_col(e):
     return e[0] == "col" or (not is_leaf(e) and any(has_col(x) for x in e[2:]))
 
 
+def null_safe(e):
+    if is_leaf(e):
+        return True
+    ks = e[2:]
+    if not (e[0] == "bin" and e[1] == "coalesce"):
+        direct = ks[:1] if e[0] == "tern" else ks
+        if any(x[0] == "null" for x in direct):
+            return False
+    return all(null_safe(x) for x in ks)
+
+
+def parses_back(e):
+    """`INTERVAL 1 DAY + '1'`: the parser reads a string after an interval in a sum as another interval — a different tree"""
+    if is_leaf(e):
+        return True
+    if e[0] == "bin" and e[1] in ("add", "sub") and e[2][0] == "iv" and e[3][0] == "str":
+        return False
+    return all(parses_back(x) for x in e[2:])
+
+
 def operands_ok(e):
-    """every compound operand mentions a column: DuckDB folds constant operands at bind time and some functions type a constant
-    that folds to NULL like the NULL literal (`1.5 % (1000 + NULL)` is typed "NULL"), which no class-level table can express"""
-    return is_leaf(e) or all((is_leaf(x) or has_col(x)) and operands_ok(x) for x in e[2:])
+    """mirror of Model/Types.lean `operandOk` on every node: a compound operand mentions a column and has no NULL literal under a
+    NULL-propagating operator. DuckDB folds such operands to constants at bind time and some functions type a constant NULL like
+    the NULL literal whatever its declared type (`1.5 % (1000 + NULL)`, `'a' || (NULL - t.si)` are typed "NULL"), which no
+    class-level table can express."""
+    return is_leaf(e) or all((is_leaf(x) or (has_col(x) and null_safe(x))) and operands_ok(x) for x in e[2:])
 
 
 def random_exprs(chk: Check, n: int):
@@ -889,7 +911,7 @@ def random_exprs(chk: Check, n: int):
     while len(out) < n:
         agg = rng.choice(["none", "none", "none", "window", "must"])
         e = gen_expr(rng, rng.choice([1, 2, 2, 3, 3, 4]), None, agg)
-        if operands_ok(e):
+        if operands_ok(e) and parses_back(e):
             out.append(e)
         else:
             chk.count("gen:rejected-constant-operand")
@@ -901,7 +923,7 @@ def correspond(chk: Check, depth1: list) -> list:
     """model vs implementation: (a) `annotFinal` vs the real annotate_types root type, (b) `eng` vs the real DuckDB typeof
     (compositionality of A-duck on nested expressions). Returns the disagreeing expressions (search hints)."""
     rng = chk.rng
-    d1 = [e for e in depth1 if not has_raw(e)]
+    d1 = [e for e in depth1 if not has_raw(e) and parses_back(e)]
     n1 = chk.pick(2500, len(d1))
     if n1 < len(d1):
         d1 = rng.sample(d1, n1)
@@ -932,13 +954,13 @@ def correspond(chk: Check, depth1: list) -> list:
                 eng_model_error += 1
             else:
                 eng_checked += 1
-                if real_ety != m_eng:
+                if real_ety != ("text" if m_eng == "strlit" else m_eng):
                     chk.correspondence_broken("assumption A-duck: DuckDB typeof vs the class-level engine table composed over the expression",
                                               {"sql": r["sql"], "expr": e, "duckdb": r["duck"], "model_eng": m_eng})
                     hints.append(e)
             if m_wf == "true":
                 wf_n += 1
-                if real_ty == m_final and real_ety == m_eng and verdict(e):
+                if real_ty == m_final and real_ety == ("text" if m_eng == "strlit" else m_eng) and verdict(e):
                     # cannot happen while theorem + correspondence hold; kept as an internal consistency check
                     raise HarnessError(f"well-formed expression disagrees although model and both real sides correspond: {r['sql']}")
     chk.corr_cases += len(exprs)
@@ -952,7 +974,7 @@ def search(chk: Check, depth1: list, hints: list, budget_s: float) -> None:
     t0 = time.time()
     tried = found = skipped = 0
     rng = chk.rng
-    d1 = [e for e in depth1 if not has_raw(e)]
+    d1 = [e for e in depth1 if not has_raw(e) and parses_back(e)]
     if chk.quick and not chk.broken:
         d1 = rng.sample(d1, min(len(d1), 4000))
 
